@@ -66,6 +66,10 @@ C = {
    "in arbitrary chunks by 1-3 authenticated attacker sessions while a paced victim session runs on the same real dserver; a panic reaching the top of any server goroutine "
    "(= process crash) is caught and reported with its stack; the victim must complete; offending sessions must get a message or be closed within 30 simulated seconds.",
    "deterministic simulation: multi-session hostile-input generation with stream chunking, panic capture at goroutine tops, victim-liveness oracle"),
+ "C16": ("exploration", "5 C16",
+   "Seeded generation of hostile message streams from 1-3 harness-scripted SSH servers to the five real clients, chunked down to 1 byte; each scenario runs twice with the same "
+   "decision trace (colours on / off): no panic may reach the top of a client goroutine and the outputs must agree after removing SGR sequences from both.",
+   "deterministic simulation: scripted hostile servers on the simulated network, twin execution under one decision trace (colour on/off), panic capture"),
 }
 
 checks = []
